@@ -164,6 +164,23 @@ def handlerFrom (extraStop : Bool) (p : Proc) (o : Outcome) (h : Nat) : List Del
   let ds := sessionFrom true p o h
   if extraStop && o != .ctorerr then andThen ds (pathsOf p.stop .full ++ pathsOf p.stop .early) else ds
 
+/-- ONE session made of several processes (`Execute` takes an array), each with a store of its own: every process is
+    constructed once and - by `Execute`'s loops - run together with the others and stopped exactly once. Per store the
+    session is that process's own session. `stopsOf i` = how often process `i` of `n` is stopped (1 in the code; the
+    seeded variant whose deferred closures all capture the loop variable stops the LAST one n times and the others never). -/
+def afterRun (p : PSet) (o : Outcome) : List Delta :=
+  let born := andThen [Delta.start 0] p.ctorFull
+  match o with
+  | .rejected => andThen born p.runEarly
+  | .ran => andThen born p.runFull
+  | _ => born
+
+def stopTimes (p : PSet) (n : Nat) (ds : List Delta) : List Delta :=
+  (List.range n).foldl (fun ds _ => andThen ds p.stop) ds
+
+def multiFrom (tbl : Kind → Proc) (ks : List Kind) (o : Outcome) (stopsOf : Nat → Nat → Nat) : List (List Delta) :=
+  ks.zipIdx.map fun (k, i) => stopTimes (tbl k).pset (stopsOf i ks.length) (afterRun (tbl k).pset o)
+
 def Delta.add (a b : Delta) : Delta :=
   ⟨b.held, a.locks + b.locks, a.unlocks + b.unlocks, a.fatal + b.fatal, a.blocked + b.blocked,
    a.accL + b.accL, a.accU + b.accU, b.runHeld, a.unknown || b.unknown⟩
